@@ -1,5 +1,6 @@
 (* C18Check.v — judges observed behaviour of `parse_from_tags` and of the CLI/builder merge. *)
 From CV Require Import Model.Base Model.TagExpr Model.RetryOpts Model.RetryOptsSpec Check.Verdict.
+From CV Require Model.RetryOptsSpec2.
 
 Fixpoint tagop_eqb (a b : tagop) : bool :=
   match a, b with
@@ -31,7 +32,8 @@ Definition oracle (t : list (str * option N)) (s : str) : option N :=
 
 Definition verdict (id : N) (c : rcase) : list (list N) :=
   let pd := oracle (rc_table c) in
-  let known := if k18a pd (rc_ftags c) (rc_rtags c) (rc_stags c) then 1 else 0 in
+  (* K18a, narrowed to the inputs on which the code CAN disagree: the one tag it consults is malformed (Props/C18.v) *)
+  let known := if RetryOptsSpec2.k18a_narrow pd (rc_ftags c) (rc_rtags c) (rc_stags c) then 1 else 0 in
   (* sub-check 1: direct call *)
   let m1 := parse_from_tags pd (rc_ftags c) (rc_rtags c) (rc_stags c) (rc_cli c) in
   let v1 := judge (c18_ok pd (rc_ftags c) (rc_rtags c) (rc_stags c) (rc_cli c) (rc_direct c)
